@@ -137,7 +137,7 @@ def check(ctx):
     # ---------------- module Greeks (closed form or autogreek of the module's own price)
     from pfhedge.nn import BSEuropeanOption, BSEuropeanBinaryOption, BSAmericanBinaryOption, BSLookbackOption
     dual_reqs, dual_meta = [], []
-    for _ in range(60 if ctx.tier == "quick" else 900):
+    for _ in range(150 if ctx.tier == "quick" else 1200):
         which = g.choice(["european", "european_binary", "american_binary", "lookback"])
         pd = which in ("american_binary", "lookback")
         s, t, v, k, m = gen_point(g, pd)
@@ -175,7 +175,7 @@ def check(ctx):
             ctx.fail(f"module {which}.{greek} is not the derivative of the module's own price", case,
                      key=f"module:{which}.{greek}:not-derivative", detail={"module": got, "finite_difference": fd})
     # ---------------- functional lookback Greeks (autogreek of the functional price; vega / theta through the gamma relations)
-    for _ in range(60 if ctx.tier == "quick" else 900):
+    for _ in range(150 if ctx.tier == "quick" else 1200):
         s, t, v, k, m = gen_point(g, True)
         if abs(m) < 0.02:
             m = m + 0.05 if m >= s + 0.05 else m
@@ -213,7 +213,7 @@ def check(ctx):
         if "ok" not in o or not rel_close(got, float_of_bits(o["ok"]), tol, 1e-9):
             ctx.disagree("module_greek_vs_dual_model", case, got, float_of_bits(o["ok"]) if "ok" in o else o)
     # ---------------- autogreek on user pricers, every accepted parameterisation
-    for _ in range(120 if ctx.tier == "quick" else 2000):
+    for _ in range(300 if ctx.tier == "quick" else 2500):
         spotpar = g.choice(["spot", "moneyness", "log_moneyness"])
         volpar = g.choice(["volatility", "variance"])
         greek = g.choice(["delta", "gamma", "vega", "theta"])
